@@ -441,7 +441,8 @@ def obs_nets(obs, owner, perm=None):
             ps = set()
             for p in w:
                 if p[0] == "t":
-                    ps.add(("t", p[2], p[3]))
+                    # a pin of another definition's port stays visible as such
+                    ps.add(("t", p[2], p[3]) if p[1] == owner else ("foreign", p[1], p[2], p[3]))
                 else:
                     ps.add(("i", perm[p[1]] if perm else p[1], p[2], p[3]))
             res[frozenset(ps)] = (c["name"], wi)
@@ -511,6 +512,15 @@ def P_parse(design, obs, wf):
                     want_dir = "INOUT" if n in [x[0] for x in bb["ins"]] else "OUT"
                     if gp.get(n) != want_dir:
                         out.append(("parse.blackbox-ports", "%s.%s is %s expected %s" % (bb["name"], n, gp.get(n), want_dir)))
+    # every wire of every definition holds only pins of that definition (its own port pins, pins of
+    # its own children)
+    for c in obs["cables"]:
+        nk = sum(1 for i in obs["insts"] if i["parent"] == c["owner"])
+        for wi, w in enumerate(c["wires"]):
+            for p in w:
+                if (p[0] == "t" and p[1] != c["owner"]) or (p[0] == "i" and not (0 <= p[1] < nk)):
+                    out.append(("parse.foreign-pin", "wire %s[%d] of %s holds pin %r of another definition"
+                                % (c["name"], wi, c["owner"], p)))
     for w in wf:
         out.append(("parse.wf." + w.replace(" ", "-"), w))
     if obs.get("extra_keys"):
